@@ -7,6 +7,17 @@ from common import *
 
 POOL = [1, 1.0, True, 2, 0, -3, 2.5, 'a', 'x', 'y', None, (1, 2), 'k', 7, 'z', 0.1, 10]
 UNHASHABLE = [[1], [2, 3], {'q': 1}]
+
+
+class Obj(object):
+    """a live object with the default repr (`<suite_keys.Obj object at 0x...>`), identity equality and its own state"""
+    def __init__(self, n): self.n = n
+
+
+OBJS = [Obj(1), Obj(2)]
+OBJ_MARK = {id(o): '<OBJ%d>' % i for i, o in enumerate(OBJS)}
+OBJ_BY_MARK = {'<OBJ%d>' % i: o for i, o in enumerate(OBJS)}
+CALL_POOL = POOL + OBJS          # values for call arguments (defaults stay JSON-representable)
 PNAMES = ['x', 'y', 'z', 'w']
 KWONLY = ['k', 'm']
 
@@ -36,6 +47,8 @@ def gen_program(r, idx):
     kwdef = [r.random() < 0.5 for _ in range(nkw)]
     varkw = r.random() < 0.35
     kind = r.choice(['func', 'func', 'func', 'method', 'unbound', 'callable', 'partial', 'partial', 'partial_method'])
+    if r.random() < 0.06:        # the fully variadic signature `(*args, **kw)`: nothing is named, the key is tail + keyword items only
+        npos, ndef, varargs, nkw, kwdef, varkw = 0, 0, True, 0, [], True
     defaults = [r.choice(POOL) for _ in range(ndef)]
     kwdefaults = [r.choice(POOL) for _ in range(nkw)]
     return dict(npos=npos, ndef=ndef, varargs=varargs, nkw=nkw, kwdef=kwdef, varkw=varkw, kind=kind,
@@ -118,7 +131,7 @@ def gen_ignore(r, prog):
 def gen_call(r, prog, malformed=False):
     nfree = prog['npos'] + (1 if prog['kind'] == 'unbound' else 0)
     na = r.choice([nfree, nfree, max(0, nfree - 1), max(0, nfree - 2), nfree + 1, nfree + 2, 0, 1])
-    pool = POOL + (UNHASHABLE if malformed else [])
+    pool = CALL_POOL + (UNHASHABLE if malformed else [])
     args = [r.choice(pool) for _ in range(na)]
     names = PNAMES[:prog['npos']] + KWONLY[:prog['nkw']] + ['q', 'r']
     kw = {}
@@ -156,7 +169,7 @@ def respell(r, f, args, kw, inst_first):
     for p in params:
         if p.kind in (p.POSITIONAL_OR_KEYWORD, p.KEYWORD_ONLY) and p.default is not p.empty and p.name not in ba.arguments:
             if r.random() < 0.6: k3[p.name] = p.default
-    if len(args) <= len(pos_names): out.append((list(args), k3))
+    out.append((list(args), k3))        # (when positionals spill into *args only keyword-only defaults are left to spell)
     # permute keyword order
     items = list(kw.items())
     if len(items) > 1:
